@@ -817,5 +817,8 @@ func checkC14(tier string, seed int64) {
 	if violations > 0 {
 		os.Exit(1)
 	}
+	if rep.unreproduced > 0 {
+		fail2("%d failure(s) did not replay and no replay-confirmed violation was found; inconclusive", rep.unreproduced)
+	}
 	fmt.Printf("OK property=C14 config=%s tier=%s wall=%.1fs histories=%d\n", config, tier, time.Since(t0).Seconds(), n)
 }
